@@ -180,6 +180,8 @@ def build(cls, geom, path, kappa, pixel=None):
     if cls == "Circle":
         return m.current.Circle(diameter=dim[0] * lam, current=2, **kw)
     if cls == "Tetrahedron":
+        if len(path) % 2 == 0 or not kappa.identity:
+            sv = sv[[0, 1, 3, 2]]         # the same vertex SET in left-handed order (display code re-orders a copy of the vertices)
         return m.magnet.Tetrahedron(vertices=sv, polarization=(1, 2, 3), **kw)
     if cls == "TriangularMesh":
         return m.magnet.TriangularMesh(vertices=sv, faces=[(0, 2, 1), (0, 1, 3), (0, 3, 2), (1, 2, 3)], polarization=(1, 2, 3), **kw)
